@@ -18,6 +18,7 @@ type UEntry struct {
 	O     []byte
 	T     []byte
 	Probe bool // probe-only: never inserted (absent keys, bounds, prefixes)
+	Twin  bool // probe-only key that collates equal to the preceding storable key (not a Prefix probe)
 }
 
 // TreeDriver drives one real tree through ranks.
@@ -232,16 +233,34 @@ func (d *Driver[K, V]) finish() {
 type cand[K any] struct {
 	k     K
 	probe bool
+	twin  bool // probe-only key that the oracle order cannot tell from its (storable) predecessor
 }
 
 // buildUniverse sorts candidates with the oracle comparator, drops candidates
 // the oracle cannot tell apart from an earlier one, and returns them in rank order.
 func buildUniverse[K any](cs []cand[K], cmp func(a, b K) int) ([]cand[K], int) {
-	sort.SliceStable(cs, func(i, j int) bool { return cmp(cs[i].k, cs[j].k) < 0 })
+	return buildUniverseT(cs, cmp, nil)
+}
+
+// buildUniverseT: twin(a, b) reports that two candidates the oracle order cannot tell apart are nevertheless
+// different keys (different identity). A probe-only twin of a storable key is kept, right after it: it is never
+// stored, so the order between the two never shows, but probing it must find nothing.
+func buildUniverseT[K any](cs []cand[K], cmp func(a, b K) int, twin func(a, b K) bool) ([]cand[K], int) {
+	sort.SliceStable(cs, func(i, j int) bool {
+		if c := cmp(cs[i].k, cs[j].k); c != 0 {
+			return c < 0
+		}
+		return !cs[i].probe && cs[j].probe // storable first
+	})
 	var out []cand[K]
 	dropped := 0
 	for _, c := range cs {
 		if len(out) > 0 && cmp(out[len(out)-1].k, c.k) == 0 {
+			if twin != nil && c.probe && twin(out[len(out)-1].k, c.k) {
+				c.twin = true
+				out = append(out, c)
+				continue
+			}
 			// same key for the oracle: keep one; insertable wins over probe-only
 			if out[len(out)-1].probe && !c.probe {
 				out[len(out)-1] = c
